@@ -160,10 +160,16 @@ def run(check):
       else:
         r_sk.violate('missing retentions', ls, h.ast, 'a section without `retentions` is not skipped with `continue` '
                      '(handler ends in `%s`)' % short(tail))
-  pat_tests = gl.test_edges(lambda pol, t, n: pol == 'F' and isinstance(t, ast.Name) and t.id == 'pattern')
+  pat_vars = {t.id for n in walk_no_nested(ls.node, include_self=False) if isinstance(n, ast.Assign)
+              for t in n.targets if isinstance(t, ast.Name) and isinstance(n.value, ast.Call) and isinstance(n.value.func, ast.Attribute)
+              and n.value.func.attr == 'get' and n.value.args and isinstance(n.value.args[0], ast.Constant) and
+              n.value.args[0].value == 'pattern'}
+  ls_rets = [n for n in walk_no_nested(ls.node, include_self=False) if isinstance(n, ast.Return) and isinstance(n.value, ast.Name)]
+  ls_list = ls_rets[0].value.id if ls_rets else 'schemaList'
+  pat_tests = gl.test_edges(lambda pol, t, n: pol == 'F' and isinstance(t, ast.Name) and t.id in pat_vars)
   for (a, lab, b) in pat_tests:
     appends = nodes_calling(gl, lambda c: isinstance(c.func, ast.Attribute) and c.func.attr == 'append' and
-                            dotted(c.func.value) == 'schemaList' and c.args and dotted(c.args[0]) != 'defaultSchema')
+                            dotted(c.func.value) == ls_list and c.args and dotted(c.args[0]) != 'defaultSchema')
     heads = [n for n in gl.nodes if n.kind == 'loop']
     rr = gl.reach([b], removed_nodes=set(heads), normal_only=True)
     if any(x in rr for x in appends):
@@ -296,9 +302,11 @@ def run(check):
                      % (what, sorted(map(str, src))))
   # producer of the aggregation tuple
   la = cx.fn('carbon.storage', 'loadAggregationSchemas')
+  third = {c.args[2].id for c in walk_no_nested(la.node, include_self=False) if isinstance(c, ast.Call) and
+           dotted(c.func) == 'PatternSchema' and len(c.args) >= 3 and isinstance(c.args[2], ast.Name)}
   prod = [n for n in walk_no_nested(la.node, include_self=False) if isinstance(n, ast.Assign) and
           isinstance(n.value, ast.Tuple) and len(n.value.elts) == 2 and
-          any(isinstance(t, ast.Name) and t.id == 'archives' for t in n.targets)]
+          any(isinstance(t, ast.Name) and t.id in third for t in n.targets)]
   if prod:
     e0, e1 = prod[0].value.elts
     gla = cx.cfg(la)
@@ -384,7 +392,8 @@ def run(check):
   gt = repo.cls('carbon.storage', 'Archive').methods.get('getTuple')
   if rets and isinstance(rets[0].value, ast.Tuple) and len(rets[0].value.elts) == 2 and fs is not None and gt is not None:
     e0 = rets[0].value.elts[0]
-    ok0 = isinstance(e0, ast.Name) and e0.id == 'precision' or scaled(e0)
+    divisor_names = {x.right.id for n, x in divs if isinstance(x.right, ast.Name)}
+    ok0 = (isinstance(e0, ast.Name) and e0.id in divisor_names) or scaled(e0)
     gts = [r for r in walk_no_nested(gt.node, include_self=False) if isinstance(r, ast.Return)]
     ok1 = gts and unparse(gts[0].value).replace(' ', '') == '(self.secondsPerPoint,self.points)'
     init = repo.cls('carbon.storage', 'Archive').methods.get('__init__')
